@@ -167,7 +167,7 @@ func runC03(c *Ctx) {
 					for _, r := range *al.Referrers() {
 						if s2, ok := r.(*ssa.Store); ok && s2.Addr == al && s2.Val == regv {
 							okWire = true
-							detail = "header.ID = &" + al.Comment + ", " + al.Comment + " = " + Term(regv)
+							detail = "header.ID = &" + vname(al) + ", " + vname(al) + " = " + Term(regv)
 						}
 					}
 				}
